@@ -456,6 +456,11 @@ def _used_names_in_file(filename: Path) -> Collection[str]:
             # Attributes and class methods are hard to trace (it basically requires
             # type checking), so we always add them to preserve.
             names.append(node.attr)
+            if node.attr.startswith("_"):
+                # obj._Class__name is how the private member __name of Class is spelled from outside
+                names.extend(
+                    node.attr[i:] for i in range(2, len(node.attr) - 2) if node.attr.startswith("__", i)
+                )
             if isinstance(node.value, ast.Name) and node.value.id in imported_names:
                 names.append(node.value.id)
 
